@@ -46,6 +46,18 @@ def parseCols : Nat → List Int → Option (List (List (Int × Int × Int) × I
     | [] => none
   | _, _ => none
 
+def optList : Option (List Int) → String
+  | none => "trap"
+  | some l => joinInts l
+
+def boolOf (x : Int) : Bool := x ≠ 0
+
+/-- `(short same raw)*` -/
+def axisTriples : List Int → Option (List (Bool × Bool × Int))
+  | [] => some []
+  | a :: b :: c :: rest => (axisTriples rest).map ((boolOf a, boolOf b, c) :: ·)
+  | _ => none
+
 def handle (cmd : String) (args : List String) : Option String :=
   match parseInts? args with
   | none => none
@@ -92,6 +104,28 @@ def handle (cmd : String) (args : List String) : Option String :=
         let (ends, coords) ← takeN n r''
         pure (optOptInt (tupleScalar peaks (some (starts, ends)) coords))
       | _ => none
+    | "norm.axis", [mn, df, mx, v] => some (optInt (normalizeAxis mn df mx v))
+    | "norm.f2", [mn, df, mx, v] => some (optInt (axisNormalize mn df mx v))
+    | "cmap4.map", cp :: sc2 :: n :: rest => do
+      let (starts, r1) ← takeN n rest
+      let (ends, r2) ← takeN n r1
+      let (deltas, r3) ← takeN n r2
+      let (ros, r4) ← takeN n r3
+      match r4 with
+      | m :: gids => if gids.length = m.toNat then
+          pure (optOptInt (cmap4Map sc2 starts ends deltas ros gids cp)) else none
+      | [] => none
+    | "glyf.iteraxis", rest => (axisTriples rest).map fun ts => optList (decodeAxis pointIterAxis ts 0)
+    | "glyf.fastaxis", rest => (axisTriples rest).map fun ts => optList (decodeAxis readFastAxis ts 0)
+    | "glyf.lens", total :: bytes => some (match resolveCoordsLen bytes total with
+        | none => "trap"
+        | some none => "err"
+        | some (some (a, b, c)) => s!"{a} {b} {c}")
+    | "cvar.delta", coord :: rest => (pairs rest).map fun ts => optInt (cvarDelta ts coord)
+    | "cvt.setup", [b, a, sc] => some (optInt (cvtSetup b a sc))
+    | "pad.size", [l] => some (optInt (paddedSize l))
+    | "loca.short", lens => some (optList (locaShort lens 0))
+    | "loca.long", lens => some (optList (locaLong lens 0))
     | "ivs.delta", nc :: rest => do
       let (coords, r) ← takeN nc rest
       match r with
